@@ -99,6 +99,14 @@ def digest(case):
         hashlib.blake2b(canon(case).encode(), digest_size=8).digest(), "big")
 
 
+def _seed_global_rng(case):
+    """Code under test that draws from numpy's global generator without being
+    seeded by the oracle sees a stream that depends on the case only, so a
+    saved case replays identically in a fresh process."""
+    import numpy as np
+    np.random.seed(digest(case) & 0xFFFFFFFF)
+
+
 def derive_seed(base, name, shard):
     h = hashlib.blake2b(f"{base}|{name}|{shard}".encode(),
                         digest_size=8).digest()
@@ -186,6 +194,7 @@ class Recorder:
             if keep:
                 self.history.append(text)
                 self.history_bytes += len(text)
+        _seed_global_rng(case)
         try:
             info = self.sub.oracle(case)
         except Skip:
@@ -622,10 +631,13 @@ def replay_case(module, subname, case, history=()):
     if sub is None:
         raise KeyError(f"unknown sub-check {subname}")
     for h in history:
+        h = json.loads(h) if isinstance(h, str) else h
+        _seed_global_rng(h)
         try:
-            sub.oracle(json.loads(h) if isinstance(h, str) else h)
+            sub.oracle(h)
         except Exception:
             pass
+    _seed_global_rng(case)
     try:
         sub.oracle(case)
     except Skip:
